@@ -973,4 +973,24 @@ theorem newPos_col_overflow (o l c : Nat) (h : colMax < c) : (newPos o l c).col 
   unfold u32
   split <;> omega
 
+mutual
+  theorem beqJ_refl : ∀ (j : J), beqJ j j = true
+    | .null => by simp [beqJ]
+    | .bool _ => by simp [beqJ]
+    | .num _ => by simp [beqJ]
+    | .frac => by simp [beqJ]
+    | .str _ => by simp [beqJ]
+    | .arr xs => by simp only [beqJ, beqJL_refl xs]
+    | .obj kvs => by simp only [beqJ, beqJK_refl kvs]
+  theorem beqJL_refl : ∀ (xs : List J), beqJL xs xs = true
+    | [] => by simp [beqJL]
+    | x :: xs => by simp [beqJL, beqJ_refl x, beqJL_refl xs]
+  theorem beqJK_refl : ∀ (kvs : List (String × J)), beqJK kvs kvs = true
+    | [] => by simp [beqJK]
+    | (k, x) :: kvs => by simp [beqJK, beqJ_refl x, beqJK_refl kvs]
+end
+
+theorem beqEnc_refl (e : Enc) : beqEnc e e = true := by
+  cases e <;> simp [beqEnc, beqJ_refl]
+
 end ShVerif.C15
